@@ -838,6 +838,38 @@ theorem pad_placement_is_code (e0 e1 mn mx : ℚ) (n : ℕ) (hn : 2 ≤ n) :
     simp [linspace, h1, List.range_succ_eq_map]
   exact ⟨rfl, rfl, hhead _ _, hlast _ _, hhead _ _, hlast _ _⟩
 
+/-- `integrate()` with its DEFAULT bounds (`start=None`, `end=None`: `Gen.integrateDefaultStart/End`, regenerated from the two
+`if … is None` statements) keeps every sample of a well-formed spectrum, i.e. is the trapezoid sum over the whole grid —
+the integral the clause "the bins sum to the spectrum's integral" and the additivity/linearity theorems refer to -/
+theorem integrate_default_is_whole (s : Spectrum) (h : WF s) (a b : ℚ) (ha : s.wave.head? = some a)
+    (hb : s.wave.getLast? = some b) :
+    integrate s (Gen.integrateDefaultStart a b) (Gen.integrateDefaultEnd a b) = trapz s.wave s.value := by
+  have hall : ∀ (l m : List ℚ) (p : ℚ → Bool), (∀ x ∈ l, p x = true) → m.length = l.length → keepMask (l.map p) m = m := by
+    intro l
+    induction l with
+    | nil => intro m p _ hm; cases m with
+      | nil => rfl
+      | cons y ys => simp at hm
+    | cons x xs ih =>
+      intro m p hp hm
+      cases m with
+      | nil => simp at hm
+      | cons y ys =>
+        have hx : p x = true := hp x (by simp)
+        simp only [List.map_cons, keepMask, hx, if_true]
+        rw [ih ys p (fun z hz => hp z (by simp [hz])) (by simpa using hm)]
+  have hk : ∀ w ∈ s.wave, Gen.integrateKeeps (Gen.integrateDefaultStart a b) (Gen.integrateDefaultEnd a b) w = true := by
+    intro w hw
+    have h1 := head_le_of_strictInc s.wave a h.1 ha w hw
+    have h2 := le_getLast_of_strictInc s.wave b h.1 hb w hw
+    simp [Gen.integrateKeeps, Gen.integrateDefaultStart, Gen.integrateDefaultEnd, h1, h2]
+  simp only [integrate]
+  rw [hall s.wave s.wave _ hk rfl, hall s.wave s.value _ hk h.2.symm]
+
+/-- instance: four samples, no bounds given -/
+example : integrate ⟨[1, 2, 4, 8], [5, 6, 7, 8]⟩ (Gen.integrateDefaultStart 1 8) (Gen.integrateDefaultEnd 1 8)
+    = trapz [1, 2, 4, 8] [5, 6, 7, 8] := by decide +kernel
+
 /-- non-vacuity of `append_single_refused`, and the accepted counterpart -/
 example : append ⟨[4], [1]⟩ ⟨[1, 2, 4], [5, 6, 7]⟩ = (⟨[1, 2, 4], [5, 6, 7]⟩, some .valueError) ∧
     append ⟨[5], [1]⟩ ⟨[1, 2, 4], [5, 6, 7]⟩ = (⟨[1, 2, 4, 5], [5, 6, 7, 1]⟩, none) := by
